@@ -91,6 +91,9 @@ impl NodeRig {
             UnifiedRecordStore::Client(_) => panic!("node rig with a client store"),
         }
     }
+    pub fn set_max_records(&mut self, n: usize) {
+        self.node_store().verif_set_max_records(n);
+    }
     pub fn stored(&mut self, key: &RecordKey) -> Option<Vec<u8>> {
         self.node_store().get(key).map(|r| r.into_owned().value)
     }
